@@ -314,8 +314,91 @@ def frontends(ctx):
         S.ProcessPoolExecutor, S.wait, S.digital_tjm, S.analog_tjm_1, S.analog_tjm_2, S.available_cpus = old
 
 
+class TargetSched(Sched):
+    """completes the oldest task in flight; every attempt of ONE chosen index fails with a retryable error, `times` times in a row"""
+
+    def __init__(self, fail_idx, times, exc):
+        super().__init__([])
+        self.fail_idx, self.left, self.exc_type = fail_idx, times, exc
+
+    def wait(self, futs, return_when=None, timeout=None):
+        fl = list(futs)
+        self.maxfl = max(self.maxfl, len(fl))
+        f = fl[0]
+        if f.idx == self.fail_idx and self.left > 0:
+            self.left -= 1
+            f.outcome, f.exc = "Retry", self.exc_type()
+            self.effective.append((0, "Retry"))
+        else:
+            f.outcome = "Ok"
+            self.effective.append((0, "Ok"))
+        return [f], None
+
+
+def public_entry(ctx):
+    """simulator.run (the public entry point) under faults that exhaust the retry budget of one trajectory: the failure must reach the
+    caller, and no trajectory may be executed again behind the caller's back"""
+    import mqt.yaqs.simulator as S
+    from mqt.yaqs.core.data_structures.networks import MPO, MPS
+    from mqt.yaqs.core.data_structures.noise_model import NoiseModel
+    from mqt.yaqs.core.data_structures.simulation_parameters import AnalogSimParams, Observable, StrongSimParams, WeakSimParams
+    from qiskit import QuantumCircuit
+
+    nm = NoiseModel([{"name": "pauli_x", "sites": [0], "strength": 0.1}])
+    old = (S.ProcessPoolExecutor, S.wait, S.digital_tjm, S.analog_tjm_1, S.analog_tjm_2, S.available_cpus)
+    try:
+        for k, (mode, exc, times) in enumerate([("strong", OSError, 11), ("analog", TimeoutError, 11), ("weak", OSError, 11), ("strong", CancelledError, 11),
+                                                ("analog", OSError, 3), ("weak", TimeoutError, 10)]):
+            n = 5 if mode != "weak" else 4
+            fail_idx = int(ctx.rng.integers(0, n))
+            sched = TargetSched(fail_idx, times, exc)
+            S.ProcessPoolExecutor, S.wait = sched.executor, sched.wait
+            S.available_cpus = lambda: 3
+            calls = []
+            obs = [Observable("z", 0)]
+            qc = QuantumCircuit(2)
+            qc.h(0)
+            if mode == "weak":
+                p = WeakSimParams(shots=n, show_progress=False)
+
+                def stub(args):
+                    calls.append(args[0])
+                    return {0: 1}
+            else:
+                p = StrongSimParams(obs, num_traj=n, show_progress=False) if mode == "strong" else AnalogSimParams(obs, elapsed_time=0.2, dt=0.1, num_traj=n, show_progress=False)
+
+                def stub(args, p=p):
+                    calls.append(args[0])
+                    return [np.full(o.trajectories.shape[1:], float(args[0])) for o in p.sorted_observables]
+
+            S.digital_tjm = S.analog_tjm_1 = S.analog_tjm_2 = stub
+            raised = None
+            try:
+                S.run(MPS(2), MPO.ising(2, 1, 0.5) if mode == "analog" else qc, p, nm, parallel=True)
+            except (OSError, TimeoutError, CancelledError) as e:
+                raised = type(e).__name__
+            except Exception as e:  # noqa: BLE001
+                raised = "other:" + type(e).__name__
+            exhausted = times > 10
+            ctx.case(nontrivial_key=("public", mode, exc.__name__, times), validated=True)
+            ctx.count("public_entry_exhausted" if exhausted else "public_entry_within_budget")
+            dup = sorted({i for i in calls if calls.count(i) > 1})
+            desc = {"oracle": "public", "mode": mode, "exc": exc.__name__, "times": times, "n": n, "fail_idx": fail_idx}
+            if exhausted and raised is None:
+                ctx.violation(f"public-dropped:{mode}", f"simulator.run ({mode}, parallel): trajectory {fail_idx} failed {times} times with {exc.__name__} (budget: 10 retries) "
+                              f"but run() returned normally; executed indices {sorted(calls)}", desc)
+            elif not exhausted and (raised is not None or sorted(set(calls)) != list(range(n)) or dup):
+                ctx.violation(f"public-within:{mode}", f"simulator.run ({mode}, parallel): {times} transient {exc.__name__} failures of trajectory {fail_idx} (within the budget): "
+                              f"raised={raised}, executed {sorted(calls)}", desc)
+            elif dup:
+                ctx.violation(f"public-rerun:{mode}", f"simulator.run ({mode}, parallel): trajectories {dup} were executed more than once around an exhausted budget", desc)
+    finally:
+        S.ProcessPoolExecutor, S.wait, S.digital_tjm, S.analog_tjm_1, S.analog_tjm_2, S.available_cpus = old
+
+
 def search(ctx):
     """Serial and parallel modes run the same set of trajectories (tagged stubs, no model needed)."""
+    public_entry(ctx)
     import mqt.yaqs.simulator as S
     from mqt.yaqs.core.data_structures.networks import MPS
     from mqt.yaqs.core.data_structures.noise_model import NoiseModel
@@ -354,6 +437,9 @@ def replay(ctx, data):
     if data.get("kind") == "no-failing-input-found":
         return "re-run the check: " + "; ".join(b["what"] for b in data.get("broken", []))
     c2 = type(ctx)(ctx.pid, "quick", ctx.seed)
+    if rp.get("oracle") == "public":
+        public_entry(c2)
+        return "; ".join(v["what"] for v in c2.violations) or None
     frontends(c2)
     search(c2)
     return "; ".join(v["what"] for v in c2.violations) or None
